@@ -64,6 +64,20 @@ pub fn render(c: &Value) -> String {
         };
         return format!("{PRELUDE}begin\n{body}  ! exit 3\nend\n");
     }
+    if c["fam"] == "rank2" {
+        let arg = match c["arg"].as_str().unwrap() {
+            | "id" => "id",
+            | "inline" => "{ fn (Z : VType) (z : Z) => ret z }",
+            | "mono" => "{ fn (x : Int64) => ret x }",
+            | "const3" => "{ fn (Z : VType) (z : Z) => ret 3 }",
+            | "dupf" => "dup",
+            | "kint" => "{ ! k Int64 }",
+            | _ => "id2",
+        };
+        return format!(
+            "{PRELUDE}begin\n{DECLS}  let id2 : Thk (forall (A : VType) . A -> Ret A) = {{ fn (A : VType) (x : A) => ret x }} that\n  let use2 = {{ fn (f : Thk (forall (A : VType) . A -> Ret A)) =>\n    do a <- ! f Int64 3; do b <- ! f Bool +T(); match b | +T() => ! exit a | +F() => ! exit 0 end }} that\n  ! use2 {arg}\nend\n"
+        );
+    }
     if c["fam"] == "selfinst" {
         let (t1, t2) = (c["t1"].as_str().unwrap(), c["t2"].as_str().unwrap());
         let v = |t: &str| if t == "A" { "a" } else { "b" };
@@ -116,6 +130,8 @@ pub fn replay_poly(cases_path: &str, out_path: &str) {
             let mut findings = Vec::new();
             let what = if c["fam"] == "quant" {
                 format!("a value of type forall (A) . A -> Ret A ascribed forall (B) . {} -> Ret {} under the binder A (shared through {})", c["a"], c["b"], c["share"])
+            } else if c["fam"] == "rank2" {
+                format!("a function expecting Thk (forall (A) . A -> Ret A) applied to {}", c["arg"])
             } else if c["fam"] == "selfinst" {
                 format!("a value of type forall (A) (B) . A -> B -> Ret A instantiated at the skolems {} {} under its own binders (shared through {})", c["t1"], c["t2"], c["share"])
             } else if c["fam"] == "alpha" {
